@@ -1,0 +1,13 @@
+//go:build verif
+
+package hashprefix
+
+import "github.com/AdguardTeam/golibs/cache"
+
+// VerifWrapCache replaces the checker's cache by wrap(cache).  The
+// verification harness uses it to make every cache operation (each of which
+// takes the cache's own lock) a scheduling point of its cooperative scheduler.
+// It must be called before the checker is used.
+func (c *Checker) VerifWrapCache(wrap func(cache.Cache) cache.Cache) {
+	c.cache = wrap(c.cache)
+}
